@@ -1,10 +1,13 @@
 #!/bin/bash
-# tools/try_seed.sh <patch.diff> <property-id> [tier]   apply a seeded change to /repo, run the check, undo it
+# tools/try_seed.sh <patch.diff> <property-id> [tier] [harness-regexp]
+# Runs a check against a scratch worktree of /repo with a seeded change applied (/repo itself is not touched, so
+# checks running against /repo at the same time are not disturbed); the worktree is removed afterwards.
 set -u
-PATCH="$1"; PROP="$2"; TIER="${3:-quick}"
-cd /repo || exit 2
-if [ -n "$(git status --porcelain)" ]; then echo "/repo not clean" >&2; git status --short | head; exit 2; fi
-git apply "$PATCH" || { echo "patch does not apply" >&2; exit 2; }
-(cd /verif && bin/gosym run --property "$PROP" --tier "$TIER" --no-evidence 2>&1 | cut -c1-500 | grep -E "^(VIOLATION|KNOWN|INCONCLUSIVE|property|harness)" | head -20)
-git checkout -- . 
-git status --short | head -3
+PATCH="$(readlink -f "$1")"; PROP="$2"; TIER="${3:-quick}"; HARNESS="${4:-}"
+WT="$(mktemp -d /tmp/seedrepo-XXXXXX)"; rmdir "$WT"
+git -C /repo worktree add --detach "$WT" HEAD -q || exit 2
+trap 'git -C /repo worktree remove --force "$WT" 2>/dev/null; git -C /repo worktree prune' EXIT
+git -C "$WT" apply "$PATCH" || { echo "patch does not apply" >&2; exit 2; }
+EXTRA="--no-evidence"
+[ -n "$HARNESS" ] && EXTRA="$EXTRA --harness $HARNESS"
+cd /verif && VERIF_REPO="$WT" VERIF_EXTRA_ARGS="$EXTRA" ./check "$PROP" "$TIER" 2>&1 | cut -c1-500 | grep -E "^(VIOLATION|KNOWN|INCONCLUSIVE|property|harness)" | head -20
